@@ -4,10 +4,10 @@ package main
 // C06 — compaction never changes what is restored; levels stay contiguous.
 
 import (
-	"sort"
-	"strings"
 	"fmt"
 	"go/token"
+	"sort"
+	"strings"
 
 	"golang.org/x/tools/go/ssa"
 )
@@ -70,8 +70,12 @@ func runC13(c *Ctx) {
 		c.floor(rule, len(cks), 3, "checkpoint calls in checkpointIfNeeded")
 		since := truthFact(vFieldPath("syncExecutor.state", "syncState.syncedSinceCheckpoint"), true, "exec.state.syncedSinceCheckpoint")
 		interval := cmpFact(vFieldLoad("DB.CheckpointInterval", nil), token.GTR, vConstInt(0), "db.CheckpointInterval > 0")
-		trunc := truthFact(vCall("(*ls.DB).exceedsTruncateThreshold", nil, vParam("origWALSize")), true, "origWALSize exceeds the truncate threshold")
-		minPages := cmpFact(vParam("newWALSize"), token.GEQ, vCall("ls.calcWALSize", nil, vFieldLoad("DB.MinCheckpointPageN", nil)), "newWALSize >= calcWALSize(MinCheckpointPageN)")
+		// the policy inputs: the two size parameters, or (when they are bundled into a struct)
+		// the sync result's fields the caller put there
+		origW := vOr(vParam("origWALSize"), vFieldLoad("syncResult.origWALSize", nil))
+		newW := vOr(vParam("newWALSize"), vFieldLoad("syncResult.newWALSize", nil))
+		trunc := truthFact(vCall("(*ls.DB).exceedsTruncateThreshold", nil, origW), true, "origWALSize exceeds the truncate threshold")
+		minPages := cmpFact(newW, token.GEQ, vCall("ls.calcWALSize", nil, vFieldLoad("DB.MinCheckpointPageN", nil)), "newWALSize >= calcWALSize(MinCheckpointPageN)")
 		nTime := 0
 		modeOf := func(k VSite) ssa.Value { return namedArg(k.Call(), "mode") }
 		isMode := func(k VSite, m string) bool {
@@ -102,7 +106,7 @@ func runC13(c *Ctx) {
 				nTime++
 				c.requireGuardV(rule, fn, k, since)
 				c.requireGuardV(rule, fn, k, interval)
-				c.requireGuardV(rule, fn, k, cmpFact(vParam("newWALSize"), token.GTR, vCall("ls.calcWALSize", nil, vConstInt(1)), "newWALSize > one frame"))
+				c.requireGuardV(rule, fn, k, cmpFact(newW, token.GTR, vCall("ls.calcWALSize", nil, vConstInt(1)), "newWALSize > one frame"))
 				c.check(isMode(k, "PASSIVE"), "R5-thresholds", fnName(fn)+": the time-based checkpoint is PASSIVE", c.pos(k.In), "PASSIVE", "unexpected mode")
 			}
 		}
@@ -191,8 +195,23 @@ func runC13(c *Ctx) {
 	}
 	if fn := c.fn("R3-logical-wal-size", "(*ls.DB).syncLocked"); fn != nil {
 		for _, k := range callsTo(fn, nameIs("(*ls.DB).checkpointIfNeeded")) {
-			a := k.Common().Args
-			ok := vFieldLoad("syncResult.origWALSize", nil)(a[3]) && vFieldLoad("syncResult.newWALSize", nil)(a[4])
+			// positionally, or as fields of a literal that bundles them
+			var leaves []ssa.Value
+			for _, x := range k.Common().Args {
+				leaves = append(leaves, x)
+				for _, fv := range compositeFields(x) {
+					leaves = append(leaves, fv)
+				}
+			}
+			has := func(m VM) bool {
+				for _, l := range leaves {
+					if m(l) {
+						return true
+					}
+				}
+				return false
+			}
+			ok := has(vFieldLoad("syncResult.origWALSize", nil)) && has(vFieldLoad("syncResult.newWALSize", nil))
 			c.check(ok, "R3-logical-wal-size", fnName(fn)+": checkpointIfNeeded(result.origWALSize, result.newWALSize)", c.pos(k), "provenance matches", "policy inputs are not the sync result's logical sizes")
 		}
 	}
@@ -271,16 +290,18 @@ func c13Gate(c *Ctx) {
 		}
 	}
 	// DB.Sync: returns nil (stops) only under !synced, !limited or syncedToWALEnd; loops otherwise
-	for _, r := range successReturns(sy) {
-		facts := edgeFactsInto(r.Block())
-		if len(facts) == 0 {
-			continue
-		}
-		for _, f := range facts {
-			ok := (f.Op == token.ILLEGAL && !f.Truth && (lim(f.L) || synced(f.L))) || (f.Op == token.ILLEGAL && f.Truth && end(f.L))
-			c.check(ok, rule, fnName(sy)+": the sync loop stops only when nothing was synced, the chunk was not limited, or the WAL end was reached", c.pos(r), "edge fact is one of the three stop conditions", "DB.Sync can stop on another condition (catch-up would end early, checkpoint policy never runs)")
-		}
+	stop := []FP{
+		truthFact(synced, false, "!result.synced"),
+		truthFact(lim, false, "!result.limited"),
+		truthFact(end, true, "result.syncedToWALEnd"),
 	}
+	nStop := 0
+	for _, r := range successReturns(sy) {
+		nStop++
+		g, k := guardedBy(r, stop...)
+		c.check(k > 0 && g, rule, fnName(sy)+": the sync loop stops only when nothing was synced, the chunk was not limited, or the WAL end was reached", c.pos(r), "success return unreachable once the edges carrying one of the three stop conditions are removed", "DB.Sync can stop on another condition (catch-up would end early, checkpoint policy never runs)")
+	}
+	c.floor(rule, nStop, 1, "success returns of DB.Sync")
 	// it loops while limited: the call is in a loop
 	for _, k := range callsTo(sy, nameIs("(*ls.DB).syncOnce")) {
 		c.check(innermostLoopOf(naturalLoops(sy), k.Block()) != nil, rule, fnName(sy)+": syncOnce is retried in a loop while chunks are limited", c.pos(k), "in loop", "no catch-up loop")
@@ -518,7 +539,6 @@ func c06CacheAtomic(c *Ctx) {
 		}
 	}
 }
-
 
 // c13CheckpointLock (R6): litestream's checkpoints take chkMu with TryLock and
 // are silently skipped while a snapshot holds the read side.  A read hold that
